@@ -20,6 +20,7 @@ func init() {
 			c.run("C20-R3", "WHO-WRITES: the displayed step never decreases within a file", c20R3)
 			c.run("C20-R4", "GUARD-DOM: layout ladder", c20R4)
 			c.run("C20-R5", "GUARD-DOM: name shortening measures by display width", c20R5)
+			c.run("C20-R9", "GUARD-DOM: a percentage is turned into an integer only after it was clamped as a float", c20R9)
 			c.run("C20-R8", "GUARD-DOM/WHO-WRITES: variable indexes into fixed-size arrays in the progress code are bounded loop counters, ring indexes with their wrap test, or guarded", c20R8)
 			c.run("C20-R7", "GUARD-DOM (interprocedural): counts handed to Grow / Repeat while rendering cannot be negative", c20R7)
 			c.run("C20-R6", "MUST-PASS/WHO-WRITES: the width the line is laid out for is the latest width reported to the filter", c20R6)
@@ -903,5 +904,42 @@ func c20R8(c *Ctx) {
 	}
 	if n < 2 {
 		c.undecided("index-in-range/sites", "fewer variable-index array accesses in the progress code than expected")
+	}
+}
+
+// c20R9: the percentage is step*100/size as a float; for an absurd step/size pair it does not fit an int64, and the
+// conversion of such a float is implementation-defined (MinInt64 on amd64: the later clamp turns 100% into 0%, the
+// percentage decreases). In showProgress (with helpers the reference tree does not have expanded) a float is
+// converted to an integer only where an upper bound on that float has been established.
+func c20R9(c *Ctx) {
+	f := c.fn("textProgressBar.showProgress")
+	n := 0
+	eachInstr(f, func(in ssa.Instruction) {
+		cv, ok := in.(*ssa.Convert)
+		if !ok {
+			return
+		}
+		from, okF := cv.X.Type().Underlying().(*types.Basic)
+		to, okT := cv.Type().Underlying().(*types.Basic)
+		if !okF || !okT || from.Info()&types.IsFloat == 0 || to.Info()&types.IsInteger == 0 {
+			return
+		}
+		n++
+		good := true
+		fs := factsAt(cv.Block())
+		for _, l := range origins(cv.X, originOpts{}) {
+			if _, isK := l.V.(*ssa.Const); isK {
+				continue
+			}
+			all := append(append([]fact{}, fs...), l.facts()...)
+			bounded := factCmp(all, token.LEQ, isValue(l.V), anyValue) || factCmp(all, token.LSS, isValue(l.V), anyValue)
+			if !bounded {
+				good = false
+			}
+		}
+		c.check(good, fmt.Sprintf("showProgress/float-clamped-before-int.%d", n), c.ipos(cv), "the float is bounded above where it is converted", "a float of the progress computation is converted to an integer before it is clamped: a ratio that does not fit an integer becomes an arbitrary value (the percentage can fall from 100% to 0%)")
+	})
+	if n == 0 {
+		c.ok("showProgress/float-clamped-before-int", c.pos(f.Pos()), "showProgress converts no float to an integer (the percentage is formatted as a float after its clamp)")
 	}
 }
